@@ -82,6 +82,11 @@ def gen_cases(r: Run):
                ("slice", [(Fraction(100), Fraction(1, 2)), (Fraction(101), tiny), (Fraction(102), Fraction(1, 2))], [Fraction(1), Fraction(2)])]
     for op, l, a in corpus:
         cases.append(dict(op=op, origin=l[0][0], peaks=l, args=a, exact=True, kind="corpus"))
+    # the empty pattern ("for every pattern"): every derived operation returns the empty pattern, none panics
+    for op, a in (("fused", [Fraction(1, 2), Fraction(1, 10), Fraction(5)]), ("fused", [Fraction(0), Fraction(0), Fraction(0)]), ("droplast", []),
+                  ("slice", [Fraction(0), Fraction(0)]), ("incr", [Fraction(1, 2)]), ("incr", [Fraction(0)]), ("trunc", [Fraction(1, 2)]),
+                  ("ignore", [Fraction(1, 2)]), ("normalize", [])):
+        cases.append(dict(op=op, origin=Fraction(100), peaks=[], args=a, exact=True, kind="corpus"))
     cases.append(dict(op="eq", a=base, b=base[:2], oa=Fraction(0), ob=Fraction(0), kind="corpus"))
     cases.append(dict(op="eq", a=base, b=[], oa=Fraction(0), ob=Fraction(0), kind="corpus"))
     import math
